@@ -287,6 +287,28 @@ def install_retainer(mod):
         RETAINER.wrap(modname, attr)
 
 
+# ---------------------------------------------------------------------------
+# recycled argument objects: recycle(tag, array) returns, inside one worker process, the SAME ndarray object for
+# every request with the same tag, shape and dtype, refilled in place with the new values.  Consecutive library
+# calls of a check then receive one object whose content changed in between - what a caller does who fills a
+# work array in a loop - so that anything the library remembers about an argument by identity (id(), weakref,
+# `is`) instead of by value goes stale and the value oracle of the check sees it.
+_RECYCLED = {}
+
+
+def recycle(tag, arr):
+    import numpy as np
+    a = np.asarray(arr)
+    key = (tag, a.shape, a.dtype.str)
+    buf = _RECYCLED.get(key)
+    if buf is None:
+        buf = np.array(a, copy=True, order="C")
+        _RECYCLED[key] = buf
+    else:
+        buf[...] = a
+    return buf
+
+
 def _silence_stdout():
     """C kernels (accumulate, slope) print to C stdout: point fd 1 to /dev/null
     in workers; the parent prints results."""
